@@ -152,6 +152,7 @@ func c17Values(c *mon.Ctx, r *mon.Rand) {
 	specs := map[string][]float64{}
 	dspecs := map[string][]time.Duration{}
 	nops := r.Range(5, 50)
+	scribble := nops%2 == 0
 	panicked := c.Guard("panic-prometheus", desc, func() {
 		for i := 0; i < nops; i++ {
 			s := scs[r.Intn(len(scs))]
@@ -202,8 +203,17 @@ func c17Values(c *mon.Ctx, r *mon.Rand) {
 				m := get("histogram", s, fam)
 				m.Bounds = sp
 				m.Samples = append(m.Samples, x)
-				s.s.Histogram(fam, tally.ValueBuckets(append([]float64(nil), sp...))).RecordValue(x)
+				given := tally.ValueBuckets(append([]float64(nil), sp...))
+				s.s.Histogram(fam, given).RecordValue(x)
 				ops = append(ops, fmt.Sprintf("%s%v.Histogram(%s,%v).RecordValue(%v)", s.prefix, s.tags, fam, sp, x))
+				if scribble {
+					// the caller re-uses its slice for something else; the series of
+					// another tag value set, created later, still has these bounds
+					for j := range given {
+						given[j] = float64(1000 - j)
+					}
+					ops = append(ops, "caller overwrites the slice it passed")
+				}
 			default:
 				fam := "hd" + id
 				if dspecs[fam] == nil {
